@@ -86,9 +86,11 @@ Spec == Init /\ [][Next]_vars
 \* ini-file-read-as-toml: the composite parser tries TOML first, so a pydoctor.ini whose text happens to be valid
 \* TOML is read with TOML's rules (no escapes in '...', `x # y` is a comment, [..] a list), not the INI/Python ones.
 KF_IniReadAsToml(r) == r.fmt = "ini" /\ r.tv /\ r.q \in {"single", "plain"} /\ (r.err # "" \/ r.back # r.s)
-\* toml-leading-escaped-quote: the `toml` package reads "\"" and "\"\"..." back as the empty string.
-KF_TomlLeadingQuote(r) == /\ r.tv /\ r.q \in {"basic", "double"} /\ r.err = "" /\ r.back = <<>>
-                          /\ (r.s = <<DQ>> \/ (Len(r.s) >= 2 /\ r.s[1] = DQ /\ r.s[2] = DQ))
+\* toml-leading-escaped-quote: the `toml` package reads "\"" back as the empty string and "\"\"..." without its
+\* first two and last two characters.
+KF_TomlLeadingQuote(r) == /\ r.tv /\ r.q \in {"basic", "double"} /\ r.err = ""
+                          /\ \/ r.s = <<DQ>> /\ r.back = <<>>
+                             \/ Len(r.s) >= 2 /\ r.s[1] = DQ /\ r.s[2] = DQ /\ r.back = SubSeq(r.s, 3, Len(r.s) - 2)
 
 Report(i) ==
   LET r == Rows[i]
